@@ -953,7 +953,7 @@ def _decide_hist(item, label, fn_sym, call_real, conc_inputs, post, maxpaths):
             out = dict(conc)
             out["earlier_call"] = conc0
             if os.environ.get("SYMX_DEBUG"):
-                print("DEBUG hist", _p.kind, repr(_p.value)[:600], "m1", m1, "m0", m0, "pc", [str(x)[:120] for x in _p.pc][:12], file=sys.stderr)
+                print("DEBUG hist", _p.kind, repr(_p.value)[:600], "m1", m1, "m0", m0, "npc", len(_p.pc), "pc", [str(z3.simplify(x))[:300] for x in _p.pc][4:], "claim", str(claim)[:300], file=sys.stderr)
             return (not c2), out, "after the same call on %r (-> %r) the real outcome %r violates the property" % (
                 jsonable(conc0), jsonable(first[:2]), jsonable(real[:2])), real
         item.prove(label + " (after an earlier call)", p.pc, claim, replay, path=p)
